@@ -62,7 +62,29 @@ def target_bimodal():
                 reflective=None, tags=["bimodal"])
 
 
-TARGETS = {"interior": target_interior, "boundary": target_boundary, "periodic": target_periodic, "bimodal": target_bimodal}
+def target_cauchy():
+    # product Cauchy(0,1) likelihood, uniform prior on [-20,20]^2: heavy tails -> the fitted Student-t has small nu
+    like = lambda x: -float(np.sum(np.log1p(x ** 2)))
+    m = math.atan(20.0)
+    truth = math.atan(1.0) / m                      # P(|x0| < 1)
+    logz = 2.0 * math.log(2.0 * m) - 2.0 * math.log(40.0)
+    return dict(d=2, like=like, stat=lambda x: (np.abs(x[:, 0]) < 1.0).astype(float), truth=truth, scale=0.5, logz=logz,
+                periodic=None, reflective=None, tags=["heavy-tailed"], half=20.0)
+
+
+def target_correlated():
+    # equicorrelated Gaussian (rho = 0.9) in 3-D, well inside the prior box [-10,10]^3
+    d, rho, s2 = 3, 0.9, 0.25
+    S = s2 * ((1 - rho) * np.eye(d) + rho * np.ones((d, d)))
+    Si = np.linalg.inv(S)
+    like = lambda x: -0.5 * float(x @ Si @ x)
+    logz = 0.5 * d * math.log(2 * math.pi) + 0.5 * math.log(np.linalg.det(S)) - d * math.log(20.0)
+    return dict(d=d, like=like, stat=lambda x: x[:, 0] * x[:, 1], truth=rho * s2, scale=s2, logz=logz, periodic=None, reflective=None,
+                tags=["correlated"], half=10.0)
+
+
+TARGETS = {"interior": target_interior, "boundary": target_boundary, "periodic": target_periodic, "bimodal": target_bimodal,
+           "cauchy": target_cauchy, "correlated": target_correlated}
 
 
 def _one(args):
@@ -73,7 +95,8 @@ def _one(args):
     try:
         with contextlib.redirect_stdout(io.StringIO()), warnings.catch_warnings():
             warnings.simplefilter("ignore")
-            s = Sampler(lambda u: 8.0 * u - 4.0, t["like"], t["d"], n_particles=cell["n"], clustering=cell["clustering"],
+            half = t.get("half", 4.0)
+            s = Sampler(lambda u: 2.0 * half * u - half, t["like"], t["d"], n_particles=cell["n"], clustering=cell["clustering"],
                         sample=cell["kernel"], resample=cell["resample"], periodic=t["periodic"], reflective=t["reflective"])
             s.run(n_total=cell["n_total"], progress=False)
             x, w, l = s.posterior()
@@ -113,7 +136,7 @@ def run_cell(cell, what, R):
 
 def _cells(tier):
     cells = []
-    for target in ("interior", "bimodal", "periodic", "boundary"):
+    for target in ("cauchy", "correlated", "interior", "bimodal", "periodic", "boundary"):
         for kernel in ("tpcn", "rwm"):
             for resample, clustering in (("mult", target == "bimodal"), ("syst", False)):
                 cells.append(dict(target=target, kernel=kernel, resample=resample, clustering=clustering, n=64, n_total=256))
